@@ -11,7 +11,7 @@
      bitmaps separated by '/', then '#'-token = VARR_LENGTH of each bitmap (representation, not contents)
    htab <min_size> <hash of key 0> <hash of key 1> ... : find K | ins K V | rep K V | del K | clear | num | each | coll
      elements are numbers K*1000+V, eq = same key, hash = the table in the header (forced 0 / collisions)
-     per op: 'f<found>' 'e<*res or ->' (do) | '-' | 'n<els_num>' | 'l<elements in foreach order>' | '#c<collisions>';
+     per op: 'f<found>' 'e<*res or ->' (do) | '-' | 'n<els_num>' | 'l<elements, sorted>' '#l<in foreach order>' | '#c<collisions>';
      then 'F<sorted elements free_func was called on by this op>' '#F<same in call order>', then the dump
      's<sorted live elements>' 'n<els_num>' and bookkeeping '#o<foreach order>' '#c<collisions>' '#b<els_bound>'
      '#z<size>' '#E<entries: . empty, x deleted, index>'; at the end HTAB_DESTROY: 'D<sorted freed>' '#D<in order>'
@@ -153,6 +153,11 @@ static void run_bitmap (char *args, char *ops) {
   for (int k = 0; k < n; k++) bm[k] = bitmap_create2 (&h_alloc, 1);
   bitmap_iterator_t iter;
   int iter_ok = n > 0;
+  /* the property speaks about iterating an unmodified bitmap; once the iterated bitmap has been
+     written since iinit, what inext delivers depends on the representation (word length), so it is
+     printed as a bookkeeping token '#x' */
+  unsigned long iter_id = 0;
+  int iter_dirty = 0;
   if (iter_ok) bitmap_iterator_init (&iter, bm[0]);
   char *save, *op;
   for (op = strtok_r (ops, ";", &save); op != NULL; op = strtok_r (NULL, ";", &save)) {
@@ -188,6 +193,10 @@ static void run_bitmap (char *args, char *ops) {
       printf (" REJECT");
       break;
     }
+    if (nids >= 1 && a[0] == iter_id
+        && !(IS ("bit") || IS ("eq") || IS ("isect") || IS ("empty") || IS ("count") || IS ("min") || IS ("max")
+             || IS ("iter") || IS ("iinit")))
+      iter_dirty = 1;
     if (IS ("bit")) printf (" b%d", bitmap_bit_p (bm[a[0]], a[1]));
     else if (IS ("set")) printf (" b%d", bitmap_set_bit_p (bm[a[0]], a[1]));
     else if (IS ("clr")) printf (" b%d", bitmap_clear_bit_p (bm[a[0]], a[1]));
@@ -216,10 +225,15 @@ static void run_bitmap (char *args, char *ops) {
         if (++cnt > 100000) break; /* a non-terminating iterator must not hang the harness */
       }
       if (cnt == 0) printf ("-");
-    } else if (IS ("iinit")) { bitmap_iterator_init (&iter, bm[a[0]]); printf (" -"); }
-    else if (IS ("inext")) {
+    } else if (IS ("iinit")) {
+      bitmap_iterator_init (&iter, bm[a[0]]);
+      iter_id = a[0];
+      iter_dirty = 0;
+      printf (" -");
+    } else if (IS ("inext")) {
       size_t nb;
-      if (bitmap_iterator_next (&iter, &nb)) printf (" x%zu", nb); else printf (" x-");
+      const char *tag = iter_dirty ? "#x" : "x";
+      if (bitmap_iterator_next (&iter, &nb)) printf (" %s%zu", tag, nb); else printf (" %s-", tag);
     }
 #undef IS
     dump_bitmaps (bm, n);
@@ -320,7 +334,8 @@ static void run_htab (char *args, char *ops) {
     } else if (!strcmp (name, "each")) {
       h_neach = 0;
       HTAB_FOREACH_ELEM (hel, ht, hel_collect, NULL);
-      print_list ("l", h_each, h_neach, 0);
+      print_list ("l", h_each, h_neach, 1);
+      print_list ("#l", h_each, h_neach, 0); /* the order of foreach is representation */
     } else if (!strcmp (name, "coll")) {
       printf (" #c%u", HTAB_COLLISIONS (hel, ht));
     } else {
